@@ -16,7 +16,7 @@ M = [
  ("M10-generator-coeff", "src/errorcode/mod.rs", "1, 204, 11, 47, 86, 124, 224,", "1, 204, 11, 47, 86, 124, 225,", {"C06": "TAB-GEN"}),
  ("M11-gf-mod", "src/errorcode/galois.rs", "let i = (ia as u16 + ib as u16) % 255;", "let i = (ia as u16 + ib as u16) % 254;", {"C06": "GF-OPS"}),
  ("M12-pad-const", "src/encodation/ascii.rs", "pub(crate) const PAD: u8 = 129;", "pub(crate) const PAD: u8 = 128;", {"C02": "TAB-CW"}),
- ("M13-default-dmre", "src/symbol_size.rs", "SYMBOL_SIZES.iter().copied().filter(|s| !s.is_dmre());", "SYMBOL_SIZES.iter().copied().filter(|s| !s.is_dmre() || s.is_square());", {"C12": "PROV-FILTER"}),
+ ("M13-default-dmre", "src/symbol_size.rs", "SYMBOL_SIZES.iter().copied().filter(|s| !s.is_dmre());", "SYMBOL_SIZES.iter().copied().filter(|s| !s.is_dmre() || s.block_setup().height == 8);", {"C12": "PROV-FILTER"}),
  ("M14-dedup-no-remove", "src/encodation/planner/shortest_path.rs", "        if seen[pl_idx] {\n            list.remove(i - removed);\n            removed += 1;\n        } else {", "        if seen[pl_idx] && i % 2 == 0 {\n            list.remove(i - removed);\n            removed += 1;\n        } else {", {"C19": "PIGEONHOLE"}),
  ("M15-latin1-row", "src/data.rs", "'÷' => 247,", "'÷' => 215,", {"C14": "TAB-L1"}),
  ("M16-eci-base", "src/encodation/mod.rs", "self.codewords.push((c / 254 + 128) as u8);", "self.codewords.push((c / 254 + 127) as u8);", {"C15": "TAB-ECI"}),
